@@ -23,6 +23,7 @@ import (
 	"verif/eng"
 	"verif/mon"
 	"verif/ops"
+	"verif/sim"
 )
 
 type knownFinding struct {
@@ -97,6 +98,10 @@ func runChild(jobFile string) {
 	}
 	res := e(j)
 	ops.TraceFlush()
+	if sim.NoiseQueries > 0 {
+		res.Counters["dry-run-queries"] = sim.NoiseQueries
+		res.Counters["dry-run-queries-answered-ok"] = sim.NoiseOK
+	}
 	if err := res.Write(j.Out); err != nil {
 		fmt.Fprintln(os.Stderr, err)
 		os.Exit(3)
